@@ -26,9 +26,8 @@ from modcorpus import *
 WRAP = ["-Wl,--wrap=malloc,--wrap=calloc,--wrap=realloc,--wrap=free"]
 INC = os.path.join(HARNESS, "moddrv_c14.inc")
 RESTARTABLE = ("ber", "oer", "xer")
-# crashes are expected on the unchanged tree (known findings) and each costs a process restart: the UBSan
-# stack trace (0.14 s of symbolizer per report) is left out of the bulk runs; the first line of the report
-# carries file:line, and an unclassified crash is re-run alone with full traces for its replay file
+# a crash costs a process restart: the UBSan stack trace (0.14 s of symbolizer per report) is left out of the
+# bulk runs; the first line of the report carries file:line
 FAST_ENV = dict(SAN_ENV, UBSAN_OPTIONS="print_stacktrace=0:halt_on_error=1:exitcode=78")
 ENC_SYNS = ["der", "uper", "cper", "oer", "coer", "xer", "cxer"]
 
@@ -278,65 +277,7 @@ def ks_for(rng, n, tier):
     return head + rest
 
 
-# ------------------------------------------------------------------ known findings (narrow predicates)
-
-def classify_known(ts, ops_text, failing_op, stderr, outline):
-    """returns a finding id when the failure is one of the recorded defects"""
-    for f in KNOWN_PREDICATES:
-        fid = f(ts, ops_text, failing_op, stderr or "", outline or "")
-        if fid:
-            return fid
-    return None
-
-
-def _kf_setof_sorted_null(ts, ops, fop, err, out):
-    # SET_OF_encode_der / SET_OF_encode_uper dereference the NULL returned by SET_OF__encode_sorted
-    if fop and fop.startswith("enc@") and "t" in ts and "constr_SET_OF.c" in err and \
-            ("null pointer" in err or "SEGV" in err):
-        return "C14-setof-encode-sorted-null"
-    return None
-
-
-def _kf_oer_integer_empty(ts, ops, fop, err, out):
-    # INTEGER_decode_oer reads *ptr although the contents are empty (a C04 matter met by the garbage decodes)
-    if "heap-buffer-overflow" in err and "INTEGER_decode_oer" in err and re.search(r"i\d+\[\d+,\*,", ts) and \
-            any(o.split(":")[0].split("@")[0] == "dec" and o.split(":")[1] == "oer" for o in ops):
-        return "C14-oer-integer-empty-contents"
-    return None
-
-
-def _kf_choice_eoc_loop(ts, ops, fop, err, out):
-    # CHOICE_decode_ber never returns on `00 xx` where end-of-contents octets are expected (C04-choice-ber-eoc-loop)
-    if err.startswith("rc=-9") and "TIMEOUT" in err and re.search(r"x\d+c\{", ts) and \
-            any(o.split(":")[0].split("@")[0] in ("dec", "decr") and o.split(":")[1] == "ber" for o in ops):
-        return "C14-choice-ber-eoc-loop"
-    return None
-
-
-KNOWN_PREDICATES = [_kf_setof_sorted_null, _kf_oer_integer_empty, _kf_choice_eoc_loop]
-
-
-def classify_oracle(ts, ops, opi, kind, p, x):
-    """oracle failures (no crash) that are recorded defects"""
-    name = ops[opi] if opi < len(ops) else ""
-    d = p[opi]
-    # SET_OF_encode_xer (canonical): `cb_failed: ASN__ENCODE_FAILED;` and `return tmper;` skip the cleanup of encs[]
-    if kind == "leak-in-enc" and re.match(r"enc@\d+:cxer$", name) and "t" in ts and d.get("f") == "1" and d.get("ret") == "-1":
-        return "C14-setof-cxer-leak"
-    return None
-
-
 # ------------------------------------------------------------------ main
-
-KF_SAMPLES = {}
-
-
-def known(run, fid, line):
-    run.known_finding(fid, line)
-    KF_SAMPLES.setdefault(fid, [])
-    if len(KF_SAMPLES[fid]) < 3:
-        KF_SAMPLES[fid].append(line[:400])
-
 
 def own_findings(run):
     """the lead assembles known_findings.json; until then read this property's fragment directly"""
@@ -468,12 +409,8 @@ def main(tier):
             rep = {"module": m["text"], "type": c["tn"], "model_type": c["ts"], "value": c["vs"], "history": h["kind"], "command_line": line,
                    "replay_cmd": "echo '%s' | <moddrv of the module built with %s and MODDRV_EXTRA=harness/moddrv_c14.inc>" % (line, WRAP[0])}
             if not h["parsed"]:
-                fid = classify_known(c["ts"], h["ops"], None, h["err"], h["out"])
-                if fid:
-                    known(run, fid, line)
-                else:
-                    run.violation("crash:history", dict(rep, what="moddrv died or printed an unparsable line on a history without allocation failure",
-                                                        c=h["out"], stderr_tail=(h["err"] or "")[-2500:]))
+                run.violation("crash:history", dict(rep, what="moddrv died or printed an unparsable line on a history without allocation failure",
+                                                    c=h["out"], stderr_tail=(h["err"] or "")[-2500:]))
                 continue
             check_history(run, rep, h, h["parsed"], None, fresh)
         for x in reps:
@@ -488,12 +425,8 @@ def main(tier):
                    "replay_cmd": "echo '%s' | <moddrv of the module built with %s and MODDRV_EXTRA=harness/moddrv_c14.inc>" % (line, WRAP[0])}
             p = parse_hist(x["out"]) if x.get("out") else None
             if not p:
-                fid = classify_known(c["ts"], x["ops"], x["ops"][x["i"]], x.get("err"), x.get("out"))
-                if fid:
-                    known(run, fid, line)
-                else:
-                    run.violation("crash:alloc-failure", dict(rep, what="moddrv died when allocation %d of op %d (%s) returned NULL" % (x["k"], x["i"], x["ops"][x["i"]].split(":")[0]),
-                                                              c=x.get("out"), stderr_tail=(x.get("err") or "")[-2500:]))
+                run.violation("crash:alloc-failure", dict(rep, what="moddrv died when allocation %d of op %d (%s) returned NULL" % (x["k"], x["i"], x["ops"][x["i"]].split(":")[0]),
+                                                          c=x.get("out"), stderr_tail=(x.get("err") or "")[-2500:]))
                 continue
             check_history(run, rep, h, p, x, fresh)
         if hs:
@@ -507,7 +440,7 @@ def main(tier):
           "the real allocator and the detection of double frees are runtime facts: the theorems speak about the ownership discipline of the model"]
     return run.finish("proof", (nthm, ndis), trusted_base=tb,
                       checker_cmd="make -C /verif all && coqc -Q coq A1 coq/Props/Properties_C14.v",
-                      extra_cov={"theorems": names, "modules": len(mods), "alloc_failure_replays": nrep, "known_finding_samples": KF_SAMPLES,
+                      extra_cov={"theorems": names, "modules": len(mods), "alloc_failure_replays": nrep,
                                  "rule": "one case = one history (<= 6 ops on one structure pointer) or one replay of it with one allocation failing; distinct command lines",
                                  "traces_validated_against_impl": run.cov["evaluations"]},
                       assumptions=["partial: the proof carries the ownership discipline of the model (what a structure owns, what free/reset release); the C's allocator behaviour is observed by the ledger on the explored histories only",
@@ -610,10 +543,6 @@ def check_history(run, rep, h, p, x, fresh):
             if p[0].get("rc") == "OK" and p[1].get("hex") != c["der"]:
                 bad.append(("value", 0, "valid %s encoding decodes to a different value" % h["syn"]))
     for kind, opi, what in bad:
-        fid = classify_oracle(c["ts"], ops, opi, kind, p, x)
-        if fid:
-            known(run, fid, rep["command_line"])
-            continue
         run.violation("oracle:%s(%s)" % (kind, kindtag), dict(rep, what=what, c=" | ".join("%s %s" % (d["op"], " ".join("%s=%s" % kv for kv in d.items() if kv[0] not in ("op", "hex"))) for d in p)))
 
 
